@@ -156,6 +156,23 @@ let run_confrec (fn : string) (bs : BinNums.coq_N list) : (string * string) opti
                  r.av_twelve_bit; r.av_monochrome; r.av_subsampling_x; r.av_subsampling_y; r.av_sample_position;
                  r.av_ipd_present; r.av_ipd_minus_one] ^ ";" ^ hex_of_bytes r.av_config_obus)
         (av1_decode_codec_conf_rec bs))
+  | "av1.DecodeEncode#v" ->
+    (* decode, then Size and Encode of the decoded record: size;bytes *)
+    (match av1_decode_codec_conf_rec bs with
+     | Base.Ok r ->
+       Some (cr_class (fun out -> hex_of_n (C16Av1EncModel.av1_size r) ^ ";" ^ hex_of_bytes out) (C16Av1EncModel.av1_encode r))
+     | Base.Err -> Some ("err", "")
+     | Base.Panic -> Some ("panic", "")
+     | Base.OutOfFuel -> Some ("hang", ""))
+  | "av1.EncodeRec#v" ->
+    (* Encode of an ARBITRARY record value: the first 12 bytes are the fields, the rest the OBUs *)
+    (match bs with
+     | f0 :: f1 :: f2 :: f3 :: f4 :: f5 :: f6 :: f7 :: f8 :: f9 :: f10 :: f11 :: obus ->
+       let r = { av_version = f0; av_seq_profile = f1; av_seq_level_idx0 = f2; av_seq_tier0 = f3; av_high_bitdepth = f4;
+                 av_twelve_bit = f5; av_monochrome = f6; av_subsampling_x = f7; av_subsampling_y = f8;
+                 av_sample_position = f9; av_ipd_present = f10; av_ipd_minus_one = f11; av_config_obus = obus } in
+       Some (cr_class (fun out -> hex_of_n (C16Av1EncModel.av1_size r) ^ ";" ^ hex_of_bytes out) (C16Av1EncModel.av1_encode r))
+     | _ -> Some ("err", ""))
   | _ -> None
 
 let run (fn : string) (bs : coq_N list) (arg : int) : string * string =
